@@ -200,7 +200,7 @@ def units():
            header='''pub fn nearest_to_zero(&self) -> (r: F64)
         requires self.wf()
         ensures r@ is Fin, contains(*self, r@->Fin_0),
-            forall|x: real| contains(*self, x) ==> rabs(r@->Fin_0) <= rabs(x),'''))
+            forall|x: real| contains(*self, x) ==> rabs(r@->Fin_0) <= #[trigger] rabs(x),'''))
 
     return L
 
